@@ -135,6 +135,9 @@ thread_local! {
     /// matrix with this many more rows than necessary (position i at row i mod R', column i div R') and wrapped
     /// with `StripedSequence::new`, which accepts any matrix large enough for the length.
     pub static SPARE_ROWS: std::cell::Cell<usize> = const { std::cell::Cell::new(0) };
+    /// 0: score the configured sequence itself; 1: score a `clone()` of it taken after `configure`;
+    /// 2: a clone that is configured once more (a no-op on a faithful copy) before being scored
+    pub static CLONED: std::cell::Cell<u8> = const { std::cell::Cell::new(0) };
 }
 
 /// Re-lay `s` out with `spare` additional sequence rows (no look-ahead rows yet).
@@ -203,6 +206,21 @@ where
     match wrap_override {
         Some(w) => striped.configure_wrap(w),
         None => striped.configure(pssm),
+    }
+    let keep_original;
+    match CLONED.with(|x| x.get()) {
+        0 => {}
+        how => {
+            let copy = striped.clone();
+            keep_original = std::mem::replace(&mut striped, copy);
+            std::hint::black_box(&keep_original);
+            if how == 2 {
+                match wrap_override {
+                    Some(w) => striped.configure_wrap(w),
+                    None => striped.configure(pssm),
+                }
+            }
+        }
     }
     let seq_rows = striped.matrix().rows() - striped.wrap();
     let l = syms.len();
@@ -346,6 +364,21 @@ where
     match wrap_override {
         Some(w) => striped.configure_wrap(w),
         None => striped.configure(pssm),
+    }
+    let keep_original;
+    match CLONED.with(|x| x.get()) {
+        0 => {}
+        how => {
+            let copy = striped.clone();
+            keep_original = std::mem::replace(&mut striped, copy);
+            std::hint::black_box(&keep_original);
+            if how == 2 {
+                match wrap_override {
+                    Some(w) => striped.configure_wrap(w),
+                    None => striped.configure(pssm),
+                }
+            }
+        }
     }
     let seq_rows = striped.matrix().rows() - striped.wrap();
     let l = syms.len();
@@ -644,6 +677,15 @@ pub fn stripe_fresh<A: Alphabet>(cfg: SCfg, syms: &[A::Symbol], wraps: &[usize])
         let counts: Vec<usize> = A::symbols().iter().map(|&x| s.count_symbol(x)).collect();
         let counts2 = s.count_symbols();
         assert_eq!(counts, counts2.to_vec(), "count_symbol vs count_symbols disagree");
+        // the LINEAR side of "counting its symbols gives the same answers as the linear sequence": the library's own
+        // counts of the encoded sequence (owned and slice implementations) must be that same answer
+        let linear = lightmotif::seq::EncodedSequence::<A>::new(syms.to_vec());
+        let lin_all = SymbolCount::<A>::count_symbols(&linear).to_vec();
+        let lin_one: Vec<usize> = A::symbols().iter().map(|&x| SymbolCount::<A>::count_symbol(&linear, x)).collect();
+        let slice_all = SymbolCount::<A>::count_symbols(&syms).to_vec();
+        assert_eq!(lin_all, counts, "EncodedSequence::count_symbols (linear) vs striped counts disagree");
+        assert_eq!(lin_one, counts, "EncodedSequence::count_symbol (linear) vs striped counts disagree");
+        assert_eq!(slice_all, counts, "<&[Symbol]>::count_symbols (linear) vs striped counts disagree");
         (snapshot(&s), idx, counts)
     }
     let g = Pipeline::<A, Generic>::generic();
